@@ -261,15 +261,25 @@ def metaOfObj : JObj → R Metadata
     pure (if hasKey m k then m else insertMeta k v m)
   | .cons _ _ _ => fail "Cannot extract string from non-string value"
 
+/-- `Null` fields are always nullable -/
+def normNullable (dt : DataType) (nullable : Bool) : Bool :=
+  match dt with
+  | .null => true
+  | _ => nullable
+
+/-- `strategy: Option<Strategy>` (`#[serde(default)]`) from the value under the key, if any -/
+def parseStrategyOpt : Option JVal → R (Option Strategy)
+  | none => pure none
+  | some .null => pure none
+  | some (.str s) => do let st ← Strategy.parse s; pure (some st)
+  | some _ => fail "Cannot extract string from non-string value"
+
 /-- `CustomField::into_field` after the children have been converted -/
 def intoField (pinned : Bool) (name : String) (dataType : Text) (nullable : Bool) (strategy : Option Strategy)
     (children : List Field) (metadata : Metadata) : R Field := do
   let dt ← buildDataTypeWith pinned dataType children
   let metadata ← mergeStrategyWithMetadata metadata strategy
-  let nullable := match dt with
-    | .null => true
-    | _ => nullable
-  let field := Field.mk name dt nullable metadata
+  let field := Field.mk name dt (normNullable dt nullable) metadata
   validateField field
   pure field
 
@@ -292,11 +302,7 @@ def parseFieldWith (pinned : Bool) : JVal → R Field
       | none => pure false
       | some (.bool b) => pure b
       | some _ => fail "Cannot deserialize bool from non-bool"
-    let strategy ← match o.get? "strategy" with
-      | none => pure none
-      | some .null => pure none
-      | some (.str s) => do let st ← Strategy.parse s; pure (some st)
-      | some _ => fail "Cannot extract string from non-string value"
+    let strategy ← parseStrategyOpt (o.get? "strategy")
     let metadata ← match o.get? "metadata" with
       | none => pure []
       | some (.obj m) => metaOfObj m
@@ -355,10 +361,7 @@ abbrev parseSchemaPinned := parseSchemaWith true
 converted), `Null` is made nullable, the field is validated -/
 def acceptForeign : Field → R Field
   | .mk name dt nullable m => do
-    let nullable := match dt with
-      | .null => true
-      | _ => nullable
-    let field := Field.mk name dt nullable m
+    let field := Field.mk name dt (normNullable dt nullable) m
     validateField field
     pure field
 
@@ -370,6 +373,11 @@ def acceptForeignList : List Field → R (List Field)
     pure (f' :: r')
 
 /-! ## what `build_data_type` receives as children for a printed type -/
+
+/-- the children value of a printed field read back (no `children` key: no children) -/
+def parseChildrenOpt : Option JVals → R (List Field)
+  | none => pure []
+  | some cs => parseFieldListWith false cs
 
 def childList : DataType → List Field
   | .struct fs => fs.toList
